@@ -105,7 +105,7 @@ func (a *unitAn) unit0(v ssa.Value) unit {
 			if strings.HasPrefix(n, "unicode/utf8.Decode") && v.Index == 1 {
 				return uPhysOff
 			}
-			if cf := calleeOf(&c.Call); cf != nil && cf.Name() == "toInt" && v.Index == 0 {
+			if cf := calleeOf(&c.Call); cf != nil && isRole(cf, "toInt") && v.Index == 0 {
 				return uLogic
 			}
 		}
